@@ -110,6 +110,7 @@ def check_sections(funcs, fn, P, routine, expected, buffer_hint, results, tags):
 
 def run(funcs, results):
     for sname, P in SETS.items():
+        n0 = len(results)
         K, L, eta, g1, g2, om, LD4 = P['K'], P['L'], P['eta'], P['gamma1'], P['gamma2'], P['omega'], P['LAMBDA_DIV4']
         S = 32 * (1 + bitlen(g1 - 1)); Ee = 32 * bitlen(2 * eta); T0 = 32 * 13; T1 = 32 * 10; W = 32 * bitlen((Q - 1) // (2 * g2) - 1)
         try:
@@ -125,6 +126,6 @@ def run(funcs, results):
             check_sections(funcs, 'w1_encode', P, 'simple_bit_pack', [dict(base=0, step=W, count=K, params=[(Q - 1) // (2 * g2) - 1])], 'w1_tilde', results, ['C08', 'C02', 'C03'])
         except e2.Refuse as ex:
             results.append({'name': f'[{sname}] layout obligations', 'tags': ['C08'], 'verdict': 'refused', 'detail': str(ex)})
-        for r in results:
+        for r in results[n0:]:
             if not r['name'].startswith('['):
                 r['name'] = f'[{sname}] ' + r['name']
